@@ -30,8 +30,11 @@ def run_inventory(C, R, entries, audit, rule="r1", stop=(), label="", ignore_fns
         R.fail(rule, "anchor:%s" % e.split("::")[-1], "-", "entry point %s not found" % e)
     inv0, seen, parent, g = P.inventory(C, [e for e in entries if e not in missing], stop)
     inv = {}
+    C._match_renames()
     for (fn, key), nodes in inv0.items():
-        inv.setdefault((fn, norm_lt(key)), []).extend(nodes)
+        # a function recognised as a rename / move of a reference-tree function is keyed by its reference path: its audit entries
+        # and known-finding keys hold
+        inv.setdefault((C._new_to_old.get(fn, fn), norm_lt(key)), []).extend(nodes)
     audit = {(norm_lt(fn), norm_lt(key)): v for (fn, key), v in audit.items()}
     R.units["%sreachable_functions" % label] = len(seen)
     R.units["%sinventory_keys" % label] = len(inv)
